@@ -22,6 +22,8 @@ E1 == { <<X>>, <<X, LB, Star, RB, Dot, A>>, <<Star>>, Fn(<<108,101,110,103,116,1
         Fn(<<97,98,115>>, <<Json(<<96,45,49,96>>)>>), Fn(<<115,117,109>>, <<B>>), <<Json(<<96,91,51,44,91,49,44,110,117,108,108,93,44,123,34,97,34,58,50,125,93,96>>)>>, Fn(<<116,121,112,101>>, <<X>>), <<X, Flat>>,
         Fn(<<105,116,101,109,115>>, <<CurT>>), Fn(<<115,112,108,105,116>>, <<Raw(<<39,97,44,98,39>>), Comma, Raw(<<39,44,39>>)>>), <<Json(<<96,55,96>>), IDivT, Json(<<96,50,96>>)>>,
         Fn(<<99,101,105,108>>, <<Json(<<96,49,46,50,96>>)>>), Fn(<<109,97,120>>, <<B>>), Fn(<<110,111,116,95,110,117,108,108>>, <<A, Comma, B>>), <<A, EqT, B>>, Fn(<<118,97,108,117,101,115>>, <<CurT>>),
+        Fn(<<116,111,95,110,117,109,98,101,114>>, <<Raw(<<39,78,97,78,39>>)>>), Fn(<<116,111,95,110,117,109,98,101,114>>, <<Raw(<<39,73,110,102,105,110,105,116,121,39>>)>>), Fn(<<116,111,95,110,117,109,98,101,114>>, <<Raw(<<39,45,105,110,102,39>>)>>),
+        <<LB>> \o Fn(<<116,111,95,110,117,109,98,101,114>>, <<Raw(<<39,110,97,110,39>>)>>) \o <<Comma>> \o Fn(<<116,111,95,110,117,109,98,101,114>>, <<Raw(<<39,43,73,110,102,39>>)>>) \o <<RB>>,
         Fn(<<109,97,112>>, <<AmpT>> \o Fn(<<108,101,110,103,116,104>>, Fn(<<116,111,95,97,114,114,97,121>>, <<CurT>>)) \o <<Comma>> \o Fn(<<116,111,95,97,114,114,97,121>>, <<X>>)) }
 E2 == { <<CurT>>, <<LB, IntT(<<48>>), RB>>, <<LB, Star, RB>>, <<A>>, Fn(<<108,101,110,103,116,104>>, <<CurT>>), Fn(<<116,121,112,101>>, <<CurT>>),
         <<CurT, EqT, CurT>>, Fn(<<116,111,95,115,116,114,105,110,103>>, <<CurT>>), Fn(<<115,111,114,116>>, <<CurT>>), <<Flat>>, Fn(<<107,101,121,115>>, <<CurT>>),
